@@ -176,6 +176,9 @@ func applyTarget(target []byte, st *state.State, ca cache.Memory, ctx context.Co
 		if st.Depth() >= state.MaxLevel {
 			return sym, idx, fmt.Errorf("max levels exceeded (%d)", state.MaxLevel)
 		}
+		if current, _ := st.Where(); current == sym {
+			return sym, idx, fmt.Errorf("already at node '%s'", sym)
+		}
 		err := st.Down(sym)
 		if err != nil {
 			return sym, idx, err
